@@ -46,5 +46,11 @@ def engine(mode):
         p = subprocess.run(["python3-vt", os.path.join(vcheck.VERIF, "tools", "schema_oracle.py")], input="\n".join(datas) + "\n", capture_output=True, text=True, timeout=3600)
         tags = [l for l in p.stdout.split("\n") if l.strip()]
         tags += ["(oracle fail oracle-crash)"] * (len(lines) - len(tags))
-        return [r + "\t" + t for r, t in zip(replies, tags)]
+        # the verdicts of python jsonschema on the REAL schemas become part of the reply: the Lean side answers with the
+        # verdicts of its own evaluator (the reference of the C02 theorems) on the model's schemas — a tie for the reference
+        out = []
+        for r, t in zip(replies, tags):
+            tag, _, jsv = t.partition("\t")
+            out.append((r[:-1] + " " + jsv + ")" if jsv and r.startswith("(sc ") and r.endswith(")") else r) + "\t" + tag)
+        return out
     return run
